@@ -22,7 +22,7 @@
     about them. *)
 From Coq Require Import List Ascii String ZArith NArith Bool Lia Permutation.
 From Shexer Require Import Lib.PyStr Lib.Dict Lib.Bin64 Gen.Consts Spec.Rdf Model.Tracker Model.Profiler
-  Model.Tokens Model.Freq Model.FreqInst Model.Shexing Model.Run Model.Run2 Spec.Counts
+  Model.Tokens Model.Freq Model.FreqInst Model.Shexing Model.Run Model.Run2 Model.RunCur Spec.Counts
   Proofs.DictLemmas Proofs.ProfileChar Proofs.ProfileOrder Proofs.ShexLemmas Proofs.ShexKeys
   Proofs.EndToEnd.
 Import ListNotations.
@@ -1203,10 +1203,11 @@ Proof.
 Qed.
 
 (** hence reading the instances from [g] and the features from the reversed
-    graph IS the plain run on the reversed graph *)
+    graph IS the plain run on the reversed graph (both with the shexing stage in
+    the order the code has: [RunCur.run_shapes_cur]) *)
 Corollary run_shapes2_reverse fa c thr g :
-  run_shapes2 fa c thr g (reverse_nonliteral (r_tau c) g) = run_shapes fa c thr (reverse_nonliteral (r_tau c) g).
-Proof. unfold run_shapes2, run_shapes. rewrite track_reverse. reflexivity. Qed.
+  run_shapes2 fa c thr g (reverse_nonliteral (r_tau c) g) = run_shapes_cur fa c thr (reverse_nonliteral (r_tau c) g).
+Proof. unfold run_shapes2, run_shapes_cur. rewrite track_reverse. reflexivity. Qed.
 
 (** *** A4 *)
 
